@@ -31,6 +31,9 @@ structure TRef where
   name : Option Str
   schema : List Str := []
   alias : Option Str := none
+  /-- the temporal version of the table a field is bound to / a source is: the text of its FOR / FOR PORTION OF criterion
+      (`str(table._for)`, which `Table.__eq__` compares); `none` for the table itself.  Identity only — never rendered. -/
+  ver : Option Str := none
   deriving DecidableEq, Repr, Inhabited
 
 /-- Python value held by a `ValueWrapper` -/
